@@ -128,8 +128,18 @@ def block_constraints(zname, b, n):
             out = []
             for j, i in enumerate(I):
                 out += [['>=', ['i', ['v', zname], i], ['c', float(b['lo'][j])]], ['<=', ['i', ['v', zname], i], ['c', float(b['hi'][j])]]]
-            return out
-        return [['>=', z, ['c', list(b['lo'])]], ['<=', z, ['c', list(b['hi'])]]]
+        else:
+            out = [['>=', z, ['c', list(b['lo'])]], ['<=', z, ['c', list(b['hi'])]]]
+        dup = b.get('dup')
+        if dup:
+            # the same components bounded once more, more loosely (the set is unchanged)
+            extra = []
+            if 'U' in dup['sides']:
+                extra.append(['<=', z, ['c', [round(v + dup['slack'], 4) for v in b['hi']]]])
+            if 'L' in dup['sides']:
+                extra.append(['>=', z, ['c', [round(v - dup['slack'], 4) for v in b['lo']]]])
+            out = out + extra if dup['pos'] == 'after' else extra + out
+        return out
     if fam == 'absbox':
         z = _sel(zname, I, n)
         c = b.get('c')
